@@ -697,6 +697,15 @@ class SymExec:
                     s = f.a + b.a.scale(sign)
                     if s.is_const() and s.c > 0:
                         return True
+        # two facts together (transitivity through one intermediate): l1 <= 0, l2 <= 0, b <= 0 with l1+l2+b = const > 0
+        if b.kind == "le":
+            les = [f for f in st.pc if f.kind == "le"]
+            if len(les) <= 12:
+                for i, f1 in enumerate(les):
+                    for f2 in les[i + 1:]:
+                        s = f1.a + f2.a + b.a
+                        if s.is_const() and s.c > 0:
+                            return True
         return False
 
     # ------------------------------------------------------------------ statements
@@ -1031,6 +1040,8 @@ class SymExec:
             return a == b
         if isinstance(a, Sym) and isinstance(b, Sym) and a.name == b.name:
             return True
+        if identity and isinstance(a, Sym) and isinstance(b, Sym) and a.exact and b.exact and a.name != b.name:
+            return False  # two distinct constructed/declared objects
         if isinstance(a, Sym) and isinstance(b, Const) and b.v is None and a.exact:
             return False
         if isinstance(b, Sym) and isinstance(a, Const) and a.v is None and b.exact:
